@@ -1,1 +1,195 @@
-import RaftLogModel.Model.Sys
+/-
+C05 — Recovery (`RaftLog::open`) never panics on small log ids, and a newest
+chunk without a complete record is replaced by a fresh chunk with the same id.
+
+Helpers: `Proofs/Parse.lean`, `Proofs/Recover.lean`.
+
+Vocabulary (defined in `Proofs/Recover.lean`):
+* `RecSmall r`: the log ids of `r` satisfy `index + 1 < 2^64` (`Record.small` of
+  `Proofs/NoPanic.lean`) and a `State` record carries small `purged`/`last`.
+* `DataSmall data`: every record `parseChunk data` yields is `RecSmall`.
+* `FsSmall fs`: for every linked chunk id, the file `open` reads for it
+  (`fs.find id`) is `DataSmall`.
+* `Headless cfg data`: `data = []`, or `cfg.truncate` and `data` is a non-empty
+  strict prefix of the encoding of a well-formed record.
+* `Loads cfg ids a a'`: the loop loads the undamaged, abutting, non-empty chunks
+  `ids` from accumulator `a`, replaying without error, and ends in `a'`.
+-/
+import RaftLogModel.Proofs.Recover
+namespace RaftLog
+
+/-- (h) `open` never panics, provided every record it reads from the linked
+files has log ids whose `index + 1` fits a u64. The three panic sites of the
+model are excluded: `next_log_index` overflow in replay (`applyIndex`),
+`RaftLogState::append` overflow, and the `"unreachable"` branch after choosing
+to reuse the last closed chunk. -/
+theorem c05_open_no_panic_partial (cfg : Cfg) (fs : Fs) (h : FsSmall fs) :
+    ∀ m, (openStore cfg fs).1 ≠ .panic m :=
+  openStore_no_panic cfg fs h
+
+theorem c05_open_no_panic_partial' (cfg : Cfg) (fs : Fs) (h : FsSmall fs) :
+    (openStore cfg fs).1.isPanic = false := by
+  cases hr : (openStore cfg fs).1 with
+  | panic m => exact absurd hr (c05_open_no_panic_partial cfg fs h m)
+  | ok _ => rfl
+  | err _ => rfl
+
+/-- A sufficient condition for `FsSmall`: every file (linked or not) parses to
+small records. -/
+theorem c05_fsSmall_of_all (fs : Fs) (h : ∀ f ∈ fs, DataSmall f.data) : FsSmall fs := by
+  intro id _ f hf
+  exact h f (List.mem_of_find?_eq_some hf)
+
+/-- The reuse branch of `open` never takes its `"unreachable"` arm: a non-empty
+list has a last element. -/
+theorem c05_reuse_has_last (closed : List Closed) (h : (!closed.isEmpty) = true) :
+    ∃ c, closed.getLast? = some c := by
+  cases hc : closed.getLast? with
+  | some c => exact ⟨c, rfl⟩
+  | none =>
+    rw [List.getLast?_eq_none_iff.mp hc] at h
+    simp at h
+
+/-- The smallness hypothesis of (h) cannot be dropped: a chunk holding
+`PurgeUpto (0, u64::MAX)` makes the model of `open` panic (overflow of
+`next_log_index` during replay). -/
+theorem c05_open_panics_on_max_index :
+    (openStore {} [{ id := 0, data := encRecord (.purgeUpto ⟨0, 2 ^ 64 - 1⟩) }]).1.isPanic = true := by
+  decide +kernel
+
+/-- (i) Headless newest chunk, general form. The linked ids are `ids ++ [h]`;
+the chunks `ids` load cleanly (`Loads`), the newest file `h` starts where they
+end (`gapCheck`) and holds no complete record. Then `open` succeeds; the file
+`h` is unlinked and a new file with the SAME id `h` is created holding exactly
+the `State` record of the replayed state; no other file is changed. -/
+theorem c05_headless_newest_is_recreated (cfg : Cfg) (fs : Fs) (ids : List Nat) (h : Nat)
+    (a' : OpenAcc) (f : File)
+    (hids : fs.linkedIds = ids ++ [h])
+    (hload : Loads cfg ids { sm := emptyStore cfg, fs := fs } a')
+    (habut : gapCheck a' h = false)
+    (hfind : fs.find h = some f) (hd : Headless cfg f.data) :
+    ∃ s w fs' pre,
+      openStore cfg fs = (.ok (s, w), fs',
+        pre ++ [.unlink "o" h true, .create "o" h true,
+                .write "o" h (encRecord (.state a'.sm.st)) true]) ∧
+      s.st = a'.sm.st ∧
+      s.openOffsets = [h, h + (encRecord (.state a'.sm.st)).length] ∧
+      w.files = [⟨h, prevLastOf a'.sm.closed⟩] ∧
+      fs'.find h = some { id := h, data := encRecord (.state a'.sm.st), durable := 0,
+                          linked := true } ∧
+      ∀ id, id ≠ h → fs'.find id = fs.find id := by
+  obtain ⟨hfs, hevs⟩ := hload.fs_evs
+  have hfind' : a'.fs.find h = some f := by rw [hfs]; exact hfind
+  obtain ⟨tr, hl⟩ := openLoop_headless habut hfind' hd
+  have hloop : openLoop cfg fs.linkedIds { sm := emptyStore cfg, fs := fs }
+      = (.ok (a'.dropHeadless h tr), a'.dropHeadless h tr) := by
+    rw [hids, hload.openLoop_append, hl]
+  have hst := openStore_fresh (n := h) hloop (Or.inl rfl) rfl (dropHeadless_has a' h tr)
+  have hsm : (a'.dropHeadless h tr).sm.st = a'.sm.st := by cases tr <;> rfl
+  have hcl : (a'.dropHeadless h tr).sm.closed = a'.sm.closed := by cases tr <;> rfl
+  rw [hsm, hcl] at hst
+  obtain ⟨hnew, hother⟩ := find_create_write (a'.dropHeadless h tr).fs h
+    (encRecord (.state a'.sm.st))
+  have hev : (a'.dropHeadless h tr).evs = (a'.pre.afterTrunc h tr).evs ++ [.unlink "o" h true] :=
+    rfl
+  rw [hev, List.append_assoc] at hst
+  refine ⟨_, _, _, _, hst, hsm, rfl, rfl, hnew, ?_⟩
+  intro id hid
+  rw [hother id hid, dropHeadless_find_other a' hid tr, hfs]
+
+/-- (i) for a directory with exactly one (headless) file: `open` succeeds and
+the directory afterwards holds exactly one file, with the same id, containing
+the encoding of the default state. -/
+theorem c05_headless_only_file (cfg : Cfg) (i : Nat) (data : Bytes) (d : Nat)
+    (hd : Headless cfg data) :
+    ∃ s w evs,
+      openStore cfg [{ id := i, data := data, durable := d, linked := true }] =
+        (.ok (s, w), [{ id := i, data := encRecord (.state {}), durable := 0, linked := true }],
+          evs) ∧
+      s.st = {} ∧ s.openOffsets = [i, i + (encRecord (.state {})).length] ∧
+      w.files = [⟨i, none⟩] ∧ Ev.unlink "o" i true ∈ evs := by
+  let f : File := { id := i, data := data, durable := d, linked := true }
+  have hids : Fs.linkedIds [f] = [] ++ [i] := by
+    simp [Fs.linkedIds, f, insertNat]
+  have hfind : Fs.find [f] i = some f := by simp [Fs.find, f]
+  obtain ⟨tr, hl⟩ := openLoop_headless (cfg := cfg) (a := { sm := emptyStore cfg, fs := [f] })
+    (id := i) rfl hfind hd
+  have hloop : openLoop cfg (Fs.linkedIds [f]) { sm := emptyStore cfg, fs := [f] } =
+      (.ok (OpenAcc.dropHeadless { sm := emptyStore cfg, fs := [f] } i tr),
+        OpenAcc.dropHeadless { sm := emptyStore cfg, fs := [f] } i tr) := by
+    rw [hids]; exact hl
+  have hst := openStore_fresh (n := i) hloop (Or.inl rfl) rfl (dropHeadless_has _ i tr)
+  have hsm : (OpenAcc.dropHeadless { sm := emptyStore cfg, fs := [f] } i tr).sm.st = {} := by
+    cases tr <;> rfl
+  have hcl : (OpenAcc.dropHeadless { sm := emptyStore cfg, fs := [f] } i tr).sm.closed = [] := by
+    cases tr <;> rfl
+  rw [hsm, hcl] at hst
+  have hfs : ((OpenAcc.dropHeadless { sm := emptyStore cfg, fs := [f] } i tr).fs.create i).write i
+      (encRecord (.state {})) = [{ id := i, data := encRecord (.state {}), durable := 0,
+                                   linked := true }] := by
+    cases tr <;>
+      simp [OpenAcc.dropHeadless, OpenAcc.afterTrunc, OpenAcc.pre, Fs.unlink, Fs.truncate,
+        Fs.update, Fs.create, Fs.write, f]
+  rw [hfs] at hst
+  refine ⟨_, _, _, hst, hsm, rfl, rfl, ?_⟩
+  cases tr <;> simp [OpenAcc.dropHeadless, OpenAcc.afterTrunc, OpenAcc.pre]
+
+/-! ### Non-vacuity -/
+
+/-- A one-file directory whose only file is torn after 5 bytes of its head
+record: `open` recreates the chunk with the same id 7. -/
+example : (openStore {} [{ id := 7, data := (encRecord (.state {})).take 5 }]).2.1
+    = [{ id := 7, data := encRecord (.state {}) }] := by decide +kernel
+
+example : Headless {} ((encRecord (.state {})).take 5) :=
+  Or.inr ⟨rfl, by decide, .state {}, (encRecord (.state {})).drop 5,
+    by simp [Record.WF, RState.WF, optWF], by decide, List.take_append_drop 5 _⟩
+
+/-- `FsSmall` holds for a concrete chunk. -/
+example : FsSmall [{ id := 0, data := encAll [.state {}, .append ⟨1, 0⟩ [1, 2, 3]] }] := by
+  apply c05_fsSmall_of_all
+  intro f hf
+  simp only [List.mem_singleton] at hf
+  subst hf
+  have hwf : AllWF [.state {}, .append ⟨1, 0⟩ [1, 2, 3]] := by
+    intro r hr
+    simp only [List.mem_cons, List.not_mem_nil, or_false] at hr
+    rcases hr with rfl | rfl
+    · simp [Record.WF, RState.WF, optWF]
+    · simp [Record.WF, LogId.WF, bytesWF, U64, U32]
+  unfold DataSmall
+  rw [parse_encAll' hwf]
+  intro x hx
+  simp only [sized, List.map_cons, List.map_nil, List.mem_cons, List.not_mem_nil, or_false] at hx
+  rcases hx with rfl | rfl
+  · exact ⟨trivial, fun x hx => by injection hx with hx; subst hx; exact ⟨trivial, trivial⟩⟩
+  · exact ⟨by simp [Record.small, smallId, U64], fun x hx => by cases hx⟩
+
+/-- `Loads` is inhabited on a concrete two-file directory: chunk 0 holds one
+`State` record (18 bytes), chunk 18 is torn inside its head record. -/
+example : ∃ a', Loads {} [0]
+      { sm := emptyStore {},
+        fs := [{ id := 0, data := encAll [.state {}] },
+               { id := 18, data := (encRecord (.state {})).take 5 }] } a' ∧
+    gapCheck a' 18 = false := by
+  have hwf : AllWF [.state {}] := by
+    intro r hr
+    simp only [List.mem_singleton] at hr
+    subst hr
+    simp [Record.WF, RState.WF, optWF]
+  have hok : (replay 0 [.state {}] (offsetsFrom 0 (sizes [.state {}])) (emptyStore {})).isOk
+      = true := by decide +kernel
+  cases hr : replay 0 [.state {}] (offsetsFrom 0 (sizes [.state {}])) (emptyStore {}) with
+  | ok sm2 =>
+    refine ⟨_, Loads.cons (f := { id := 0, data := encAll [.state {}] }) rfl rfl rfl hwf (by simp) hr (Loads.nil _), ?_⟩
+    have : (encRecord (Record.state {})).length = 18 := by decide
+    simp [gapCheck, OpenAcc.loaded_prevEnd, this]
+  | err k => rw [hr] at hok; cases hok
+  | panic m => rw [hr] at hok; cases hok
+
+example : (openStore {} [{ id := 0, data := encAll [.state {}] },
+               { id := 18, data := (encRecord (.state {})).take 5 }]).2.1
+    = [{ id := 0, data := encAll [.state {}] }, { id := 18, data := encRecord (.state {}) }] := by
+  decide +kernel
+
+end RaftLog
